@@ -27,7 +27,7 @@ try:
         dest = os.path.join(VERIF, "seeded_benign", "F" + n)
         seed = os.path.join(VERIF, "seeded", n)
         extra = [f for f in files_of(pd) if f not in files_of(os.path.join(seed, "patch.diff"))]
-        if extra:
+        if extra and "--allow-extra" not in a:
             print("REJECTED", n, "touches files the seeded patch does not:", extra)
             continue
         r = subprocess.run([os.path.join(VERIF, "tools", "verify_benign.sh"), os.path.join(SRC, n), wt], capture_output=True, text=True)
